@@ -21,7 +21,7 @@ REAL = ["all train_* routines incl. buffers, losses, optimisers", "MemoryLogger"
 STUB = ["environment (SimEnv / SimTabEnv, seeded sampler)"]
 ASSUMPTIONS = ["XLA thread configuration and platform are held fixed between twins (the property assumes the same machine)",
                "identically initialised function approximators = built by the same constructor calls from the same seed in each interpreter"]
-TIERS = {"quick": {"runs": 48}, "thorough": {"runs": 480}}
+TIERS = {"quick": {"runs": 54}, "thorough": {"runs": 540}}
 REQUIRED = ["twin_pairs_equal", "different_seed_differs"]
 REQUIRED_QUICK = REQUIRED
 CHUNK = 24  # TrainSim plans per fresh worker process
@@ -40,7 +40,34 @@ def routines():
     return [("train", a) for a in TRAIN + extra] + [("tab", a) for a in TAB] + [("sched", a) for a in SCHED]
 
 
+def make_buffer_plan(rng):
+    """Replay-buffer level twin: a multi-task buffer driven by a real seeded generator; sampled batches (and which task
+    each batch comes from) must not depend on the interpreter (object addresses, hash seeds)."""
+    from rlsim import buffersim
+
+    cls = rng.choice(["ReplayBuffer", "LAP", "PrioritizedReplayBuffer", "SubtrajectoryReplayBuffer", "SubtrajectoryReplayBufferPER"])
+    family = "sub" if cls.startswith("Sub") else "flat"
+    n_tasks = rng.choice([2, 3, 4])
+    H = 2 if family == "sub" else 1
+    ops = []
+    for t in range(n_tasks):
+        ops.append(["select", t])
+        ops += [["add", 0]] * 4 + [["add", 1]]
+    for _ in range(rng.choice([10, 25])):
+        ops.append(["sample", rng.choice([1, 2, 4]), [0.5], 0, 1, True, 0.4 if cls == "PrioritizedReplayBuffer" else None])
+        if rng.random() < 0.3:
+            ops += [["select", rng.randrange(n_tasks)], ["add", rng.choice([0, 0, 1])]]
+    return {"check": PROPERTY, "engine": "buffer", "adapter": "MultiTaskReplayBuffer", "clauses": ["fields"], "family": family, "cls": cls,
+            "n_tasks": n_tasks, "capacity": rng.choice([8, 16]), "horizon": H, "obs_dim": 1, "act_dim": 1, "discrete": False, "dtype": "default",
+            "gen": "real", "gen_seed": rng.randrange(2**31), "seed": rng.randrange(2**31), "ops": ops}
+
+
 def make_plan(rng, tier, index):
+    if index % 6 == 5:
+        plan = make_buffer_plan(rng)
+        plan["hashseeds"] = [rng.choice(["0", "1"]), rng.choice(["7", "42", "123", "999"])]
+        return plan
+    index = index - index // 6
     rs = routines()
     kind, name = rs[index % len(rs)]
     if kind == "train":
@@ -65,7 +92,13 @@ def make_plan(rng, tier, index):
             if plan["sched_kind"] == "scheduler":
                 break
         plan["scheduler"] = name
-        plan["backbone"] = "stub"
+        plan["backbone"] = "stub" if (name == "uts" or rng.random() < 0.4) else rng.choice(["ddpg", "td3"])
+        if plan["backbone"] != "stub":
+            plan["learning_starts"] = 4
+            plan["n_tasks"] = rng.choice([2, 3])
+            plan["total_timesteps"] = rng.choice([20, 30])
+            plan["b1"], plan["b2"] = plan["total_timesteps"] // 2, plan["total_timesteps"] // 2
+            plan["K"] = 2
         plan["interval"] = rng.choice([1, 2])
         plan.update(check=PROPERTY, engine="sched", adapter=name)
     else:
@@ -89,6 +122,10 @@ def prerun_plan(plan):
 
     p = _json.loads(_json.dumps(plan))
     p.pop("prerun", None)
+    if plan["engine"] == "buffer":
+        p["gen_seed"] = plan["gen_seed"] + 5
+        p["ops"] = p["ops"][: len(p["ops"]) // 2]
+        return p
     if plan["engine"] == "train":
         c = p["cfg"]
         for k, v in (("gamma", 0.37), ("tau", 0.11), ("hidden", 5 if c.get("hidden") != 5 else 6), ("batch_size", 5), ("variance", 0.33)):
@@ -110,6 +147,10 @@ def execute_inner(plan):
     if plan.get("prerun"):
         pre = prerun_plan(plan)
         execute_inner(pre)
+    if plan["engine"] == "buffer":
+        from rlsim import buffersim
+
+        return buffersim.execute(plan)
     if plan["engine"] == "sched":
         from rlsim import schedsim
 
@@ -140,7 +181,7 @@ def child(plan, variant, hashseed, scratch, tag):
 
 def execute(plan):
     res = Result()
-    site = ("train_" + plan["adapter"]) if plan["engine"] in ("train", "sched") else ("train_" + plan["algo"])
+    site = plan["adapter"] if plan["engine"] == "buffer" else ("train_" + plan["adapter"]) if plan["engine"] in ("train", "sched") else ("train_" + plan["algo"])
     scratch = tempfile.mkdtemp(prefix="rlsim_twin_", dir=os.environ.get("VERIF_SCRATCH"))
     try:
         a = child(plan, 0, plan["hashseeds"][0], scratch, "a")
@@ -149,6 +190,8 @@ def execute(plan):
         b = child(pb, 1, plan["hashseeds"][1], scratch, "b")
         p2 = json.loads(json.dumps(plan))
         p2["seed"] = plan["seed"] + 1
+        if "gen_seed" in p2:
+            p2["gen_seed"] += 1
         if isinstance(p2.get("env"), dict) and "space_seed" in p2["env"]:
             p2["env"]["space_seed"] += 1  # "a different seed" includes the environment's sampler seed
         c = child(p2, 2, plan["hashseeds"][0], scratch, "c")
